@@ -534,12 +534,15 @@ class ResultQuantifier(CanBehaveLikeAVariable[T], ABC):
             node._forget_evaluation_memory_()
         # after the variables have let go of what they had cached
         SymbolGraph().remove_dead_instances()
+        self.__dict__["_live_evaluations_"] = self.__dict__.get("_live_evaluations_", 0) + 1
         try:
             yield from map(self._process_result_, self._evaluate__())
         finally:
-            # ... and a variable without a given domain does not hold on to what it has seen once the evaluation is over
+            # ... and a variable without a given domain does not hold on to what it has seen once the evaluation is over;
+            # the other nodes let go when no evaluation of this query is running any more
+            self.__dict__["_live_evaluations_"] -= 1
             for node in nodes:
-                if isinstance(node, Variable):
+                if isinstance(node, Variable) or not self.__dict__["_live_evaluations_"]:
                     node._forget_evaluation_memory_()
 
     def _evaluate__(
